@@ -8,7 +8,7 @@ ID = "C01"
 LEVEL = "proof"
 PROPS_FILE = "C01.v"
 RUN_MODULE = "RunC01"
-TRANSLATOR_UNITS = ["opshape", "derived", "pyrtl_rhs"]
+TRANSLATOR_UNITS = ["opshape", "derived", "pyrtl_rhs", "pyrtl_switch"]
 SHARD = 250
 RULE = ("[after the audit: + operands that are Python ints / enum members / Const(v) on either side of every binary operator "
         "(reflected operators), in Cat / Mux / Array / bit_select offsets (stream exi); shift amounts of 4..6 bits and int amounts up to 64 on "
